@@ -25,6 +25,10 @@ CLAUSES = (
 WF = 'workflow_files'
 
 
+def _body_nodes(if_):
+    return [n for st in if_.body for n in ast.walk(st)]
+
+
 def check(c):
     v = c.func(WF, 'validate_workflow_name')
     raises = [r for r in c.idx.walk(v.node) if isinstance(r, ast.Raise)]
@@ -54,11 +58,20 @@ def check(c):
         c.pre('C39.gate', v, c.idx.parent[id(r)], lambda s: isinstance(
             s, ast.Assign) and norm(s.targets[0]) == 'name' and norm(
             s.value) == 'os.path.normpath(name)', 'name = normpath(name)')
-    # every normal exit passed all three tests: the function has no early
-    # `return` before them
-    rets = [r for r in c.idx.walk(v.node) if isinstance(r, ast.Return)]
-    c.ob('C39.gate', f'{v.fq} :: no early return', not rets,
-         c.where(v.node, v), '')
+    # every normal exit passed all three tests: each rejecting `if` is
+    # evaluated on every path from the entry to a normal exit
+    for what, reqs in need.items():
+        for r in raises:
+            if not all(c.holds(r, q, at_entry=True) for q in reqs):
+                continue
+            x = r
+            while x is not v.node and not (
+                    isinstance(x, ast.If) and r in _body_nodes(x)):
+                x = c.idx.parent[id(x)]
+            if isinstance(x, ast.If):
+                c.always('C39.gate', v, lambda n, t=x.test: n is t,
+                         f'tests for {what}')
+            break
     res = c.find(v, 'check_reserved_dir_names(name)')
     c.floor('C39.reserved', 'check_reserved_dir_names(name)', len(res), 1)
     for n in res:
@@ -146,6 +159,18 @@ VARIANTS = [
      '''    name = os.path.normpath(name)
     if name.startswith(os.curdir):''',
      '''    if name.startswith(os.curdir):''', 'C39.gate'),
+    ('early-return', 'cylc/flow/workflow_files.py',
+     '''    if os.path.isabs(name):
+        raise WorkflowFilesError(
+            f"workflow name cannot be an absolute path: {name}"
+        )
+''', '''    if not check_reserved_names:
+        return
+    if os.path.isabs(name):
+        raise WorkflowFilesError(
+            f"workflow name cannot be an absolute path: {name}"
+        )
+''', 'C39.gate'),
     ('allow-absolute', 'cylc/flow/workflow_files.py',
      '''    if os.path.isabs(name):
         raise WorkflowFilesError(
